@@ -1,5 +1,6 @@
 import OrdModel.Basic.Outcome
 import OrdModel.Text.RustParse
+import OrdModel.Generated.SpacedRuneFix
 /-
 Local, minimal models of the sub-parsers that `Outgoing::from_str` and the explorer query types
 delegate to, *as reached from those callers*: `Sat::from_str` on a sat name, `Rune::from_str`,
@@ -46,35 +47,43 @@ def runeLoop : Bool → Nat → List Char → Outcome Nat
 
 def runeFromStr (s : List Char) : Outcome Nat := runeLoop true 0 s
 
-/-- the char loop of `SpacedRune::from_str`: `n` = letters so far, `letters` reversed -/
-def spacedLoop : List Char → Nat → List Char → Outcome (List Char × Nat)
+/-- the char loop of `SpacedRune::from_str`: `letters` reversed.  `fixed` = the repair
+`notes/fix-spaced-rune-shl.diff` is present (`checked_shl` → `Error::Rune(Range)` instead of the
+unchecked `1 << k`) -/
+def spacedLoopWith (fixed : Bool) : List Char → Nat → List Char → Outcome (List Char × Nat)
   | letters, spacers, [] => .ok (letters.reverse, spacers)
   | letters, spacers, c :: cs =>
-    if isUpper c then spacedLoop (c :: letters) spacers cs
+    if isUpper c then spacedLoopWith fixed (c :: letters) spacers cs
     else if c = '.' ∨ c = '•' then
       if letters.length = 0 then .err "rune:leading-spacer"
       else
         let k := letters.length - 1
-        if 32 ≤ k then .panic "shl@1<<(rune.len()-1)"
+        if 32 ≤ k then (if fixed then .err "rune:range" else .panic "shl@1<<(rune.len()-1)")
         else if spacers.testBit k then .err "rune:double-spacer"
-        else spacedLoop letters (spacers + 2 ^ k) cs
+        else spacedLoopWith fixed letters (spacers + 2 ^ k) cs
     else .err "rune:character"
 
 /-- `32 - spacers.leading_zeros()` -/
 def bitLen (n : Nat) : Nat := if n = 0 then 0 else Nat.log2 n + 1
 
-/-- `SpacedRune::from_str` → (rune value, spacers) -/
-def spacedRuneFromStr (s : List Char) : Outcome (Nat × Nat) :=
-  match spacedLoop [] 0 s with
+/-- `SpacedRune::from_str` → (rune value, spacers).  Unrepaired: `rune.len().try_into().unwrap()`
+(usize → u32) is a panic branch; repaired: `.unwrap_or(u32::MAX)`. -/
+def spacedRuneFromStrWith (fixed : Bool) (s : List Char) : Outcome (Nat × Nat) :=
+  match spacedLoopWith fixed [] 0 s with
   | .err e => .err e
   | .panic p => .panic p
   | .ok (letters, spacers) =>
-    if 2 ^ 32 ≤ letters.length then .panic "unwrap@rune.len().try_into()"
-    else if bitLen spacers ≥ letters.length then .err "rune:trailing-spacer"
+    if 2 ^ 32 ≤ letters.length ∧ !fixed then .panic "unwrap@rune.len().try_into()"
+    else if bitLen spacers ≥ min letters.length (2 ^ 32 - 1) then .err "rune:trailing-spacer"
     else match runeFromStr letters with
       | .ok r => .ok (r, spacers)
       | .err e => .err e
       | .panic p => .panic p
+
+/-- the parser as it is in /repo now: the flag is re-extracted from the source text on every run
+(`tools/extractors/spaced_rune_fix.py`) -/
+def spacedRuneFromStr (s : List Char) : Outcome (Nat × Nat) :=
+  spacedRuneFromStrWith Ord.Generated.SpacedRuneFix.shlFixed s
 
 /-- `RuneId::from_str` -/
 def runeIdFromStr (s : List Char) : Outcome (Nat × Nat) :=
